@@ -148,6 +148,23 @@ TDrop == \/ /\ Ev.e = "drop_begin" /\ dropping' = TRUE /\ dropFailed' = FALSE
             /\ real' = NoReal /\ snap' = NoSnap
             /\ Same(<<dur, pend, gens, hist, done, ack, fl, now, conf, dropping, dropFailed>>)
 
+\* the process dies: some subset of the un-synced units reached the platter, everything volatile is
+\* lost; the next session recovers this image and the per-key histories continue from there
+TCrash == /\ Ev.e = "crash"
+          /\ dur' = ApplyUnits(dur, pend, {<<Ev.units[i][1], Ev.units[i][2]>> : i \in 1 .. Len(Ev.units)}, 1)
+          /\ pend' = <<>>
+          /\ done' = [k \in Keys |-> Len(hist[k])]
+          /\ dropping' = FALSE /\ dropFailed' = FALSE
+          /\ real' = NoReal /\ snap' = NoSnap
+          /\ Same(<<gens, hist, ack, fl, now, conf>>)
+
+\* the restarted store's contents become the current state of every key
+TAdopt == /\ Ev.e = "adopt"
+          /\ hist' = [k \in Keys |-> Append(hist[k], IF Ev.kv[k] >= 0 THEN Ev.kv[k] ELSE 0)]
+          /\ done' = [k \in Keys |-> Len(hist[k]) + 1]
+          /\ real' = NoReal /\ snap' = NoSnap
+          /\ Same(<<dur, pend, gens, ack, fl, now, conf, dropping, dropFailed>>)
+
 \* C19: without any flush, everything completed `settle` ago must be durable and retired
 TSettled == /\ Ev.e = "settled"
             /\ ack' = done
@@ -206,11 +223,11 @@ FlagsOf(d, p, gs, hs, ak, t, cf) ==
 
 Changes == IF conf'.cc = 3 THEN FALSE                             \* only what the real recovery returned
            ELSE IF conf'.cc = 2 THEN Ev.e \in {"image", "fsync"}      \* durable states only
-           ELSE IF conf'.cc = 1 THEN Ev.e \in {"init", "image", "call", "tick", "w", "fsync", "flush_end", "drop_end", "settled"}
+           ELSE IF conf'.cc = 1 THEN Ev.e \in {"init", "image", "crash", "adopt", "call", "tick", "w", "fsync", "flush_end", "drop_end", "settled"}
            ELSE Ev.e \in {"flush_end", "drop_end", "settled"}
 TNext == /\ l <= Len(Rec) /\ l' = l + 1
          /\ (TStart \/ TGen \/ TCall \/ TRet \/ TTick \/ TWrite \/ TFsync \/ TFlushBegin \/ TFlushEnd
-             \/ TDrop \/ TRec \/ TSettled \/ TImage)
+             \/ TDrop \/ TRec \/ TSettled \/ TImage \/ TCrash \/ TAdopt)
          /\ (IF Ev.e \in {"init", "image"} THEN TRUE ELSE live0' = live0)
          /\ cflags' = IF Changes THEN FlagsOf(dur', pend', gens', hist', ack', now', conf') ELSE cflags
 TSpec == TInit /\ [][TNext]_tvars
